@@ -997,6 +997,23 @@ func (ev *specEnv) callExpr(e *ast.CallExpr, n *specNode) Val {
 			fail("seen() outside a map-range loop invariant")
 		}
 		return boolV(mkSelect(ev.fr.iters[ev.iter], arg(0).(Sc).T))
+	case "applies":
+		// applies(f, a): the result of calling the (pure) function parameter f on a
+		name := exprString(e.Args[0])
+		a := ev.coerceInt(arg(1).(Sc))
+		fn := quoteSym("param:" + name)
+		if ev.x.fn != nil {
+			for _, prm := range ev.x.fn.Params {
+				if prm.Name() == name {
+					if sig, ok := prm.Type().Underlying().(*types.Signature); ok && sig.Results().Len() == 1 {
+						rs := x.sortOf(sig.Results().At(0).Type())
+						x.decls.add(fn, fmt.Sprintf("(declare-fun %s (%s) %s)", fn, a.T.Sort, rs))
+						return Sc{app(rs, fn, a.T), sig.Results().At(0).Type()}
+					}
+				}
+			}
+		}
+		return boolV(x.fresh("applies", sBool))
 	case "pending":
 		if ev.st.pending.S == "" {
 			return Sc{tNilI, types.Universe.Lookup("error").Type()}
